@@ -188,6 +188,9 @@ def message_class(m1: str, m2: str) -> str:
 
 
 async def search(ctx):
+    import corr_kernel as _ck
+
+    await _ck.run_scenarios(ctx, lambda ctx, run_: Observer(ctx, run_), ["rerole", "nested_chain"])
     await recycle_scenarios(ctx)
     r = ctx.rng("pairs")
     n = ctx.budget(500, 12000)
